@@ -39,7 +39,7 @@ def okB (s : St) : Op → Bool
   | .clear => true
   | .replaceList os => decide os.Nodup
   | .replaceDict kvs => decide ((Dict.updateAll [] kvs).map (·.2)).Nodup
-  | .assign _ => s.checkOnSet || s.names.isEmpty
+  | .assign _ => true       -- the property makes no exception for value assignments (`Op.okFull`)
 
 /-- the views of one observation agree (theorem `views_agree`) -/
 def viewsOk (o : Obs) (c : Bool) (univ : List Obj) : Option String :=
